@@ -1,8 +1,17 @@
 #!/usr/bin/env python3
-"""Build the go -overlay JSON: every file under /verif/overlay/<rel> is added at /repo/<rel>.
-Extra mappings (instrumented rewrites) are merged from build/inst/map.json if present."""
+"""Build the go -overlay JSON.
+ * every *.go file under /verif/overlay/<rel> is added at /repo/<rel>;
+ * /verif/overlay/PATCHES.json lists exact-string replacements applied to copies of
+   repo files (a missing anchor string is a hard error: the hook no longer fits the tree);
+ * extra JSON maps given as arguments (instrumented rewrites) are merged last; if a file
+   is both patched and instrumented, the instrumenter has already consumed the patched copy.
+usage: mkoverlay.py [--out-dir build/rw-<id>] [extra-map.json ...]"""
 import json, os, sys
 root = '/verif/overlay'
+args = sys.argv[1:]
+outdir = '/verif/build/rw'
+if args and args[0] == '--out-dir':
+    outdir = args[1]; args = args[2:]
 rep = {}
 for d, _, fs in os.walk(root):
     for f in fs:
@@ -10,7 +19,20 @@ for d, _, fs in os.walk(root):
             src = os.path.join(d, f)
             rel = os.path.relpath(src, root)
             rep['/repo/' + rel] = src
-for extra in sys.argv[1:]:
+patches = json.load(open(os.path.join(root, 'PATCHES.json')))
+os.makedirs(outdir, exist_ok=True)
+for p in patches:
+    src = '/repo/' + p['file']
+    s = open(src).read()
+    for old, new in p['replace']:
+        if s.count(old) != 1:
+            sys.stderr.write('mkoverlay: anchor %r occurs %d times in %s\n' % (old, s.count(old), src))
+            sys.exit(2)
+        s = s.replace(old, new)
+    dst = os.path.join(outdir, p['file'].replace('/', '__'))
+    open(dst, 'w').write(s)
+    rep[src] = dst
+for extra in args:
     if os.path.exists(extra):
         rep.update(json.load(open(extra)))
 json.dump({'Replace': rep}, sys.stdout, indent=1)
